@@ -69,6 +69,19 @@ CHECKS["C14"] = dict(
     text="Theorems in coq/Properties/C14.v: poll_next is synchronous so nothing is checked out whenever the receiver is parked; items are accounted for at every point of every schedule, hence across abandoned polls; a REQ recv that is still pending leaves the socket owing it, and a send is refused meanwhile; the structure (no take() of the marker before the await) is re-read from src/req.rs. Real sockets: a recv future is created, polled 0-3 times and dropped at every byte position of the incoming messages, repeated after every byte; the drained sequence and the following send/recv are judged.",
     note=SOCK_NOTE + " Suspension points are those of the model: an await that never returns Pending in the harness (uncontended scc lookup) is covered by the theorems only.", design="4 C14")
 
+CHECKS["C13"] = dict(
+    technique="Coq proof (invariant over all histories of subscribe/unsubscribe/join: every peer's wire, counted as a publisher counts it, equals the socket's set) + exhaustive short histories with a join at every position and fault scenarios on a real SUB socket",
+    text="Theorems in coq/Properties/C13.v: for every history of subscribe / unsubscribe (repeated, never-subscribed) and joins, each registered peer has been written messages whose per-topic reference count is 1 for subscribed topics and 0 otherwise, so all peers agree with the set; updates reach every connected peer, repeats are silent, a late joiner gets the whole set; the structure of src/sub.rs (send only on change, no stop at first error, no unwrap) is re-read every run. Real SUB: all histories to length 4/5 over 3 topics x every join position, 2-3 peers, a failing peer during updates, a failing replay; the accept-vs-subscribe race is a listed known finding.",
+    note=SOCK_NOTE + " The accept-side interleaving (join suspended between reading the set and registering) is outside the sequential model: exercised on the real code by stalling the joiner's writer, reported as KNOWN-FINDING sub-accept-race.", design="4 C13")
+CHECKS["C15"] = dict(
+    technique="Coq proof (loop invariant of the proxy for every sequence of select! branch choices, over the World models of both sockets) + the real proxy() between real sockets on scripted connections compared with the extracted model and a verbatim-forwarding oracle",
+    text="Theorems in coq/Properties/C15.v: for every choice sequence, everything received on one side has been sent on the other as the same list of messages (frames, order, multiplicity), at most the message whose send failed is missing when an error ends the proxy; the capture socket is sent a copy of every message taken. The losing select! branch consumes nothing (C14). Real proxy() over ROUTER/DEALER and DEALER/DEALER with 1-3 clients and workers, capture, both sides queued before the proxy runs, segmented feeds.",
+    note=SOCK_NOTE + " futures::select! picks pseudo-randomly among ready branches: modelled as arbitrary choice; the capture wire is compared as a multiset, per-direction wires exactly.", design="4 C15")
+CHECKS["C16"] = dict(
+    technique="Coq proof (frame lemmas, disconnect lemmas on the World model, re-read structure of every failure path) + every cut position x fault kind x socket type on real sockets with other live peers",
+    text="Theorems in coq/Properties/C16.v: events on one connection leave all others untouched; a stream error surfaced by recv disconnects exactly that peer and cannot be yielded again (only registered streams yield); a disconnected peer is in no table, both halves released, nobody else touched; no later round-robin or routed send reaches it. Real sockets: nine types x every byte offset of greeting+READY+messages x {EOF, reset, write error} x 0-2 other peers: others served, at most one error, halves released, nothing routed afterwards. Known finding clean-eof-keeps-write-half is listed and reported as such.",
+    note=SOCK_NOTE + " Descriptor release is the OS's: the model says 'both halves dropped', the harness observes the drop of the scripted halves. PUB/XPUB see a write error only once the buffer reaches the high-water mark (try_send ignores the flush result).", design="4 C16")
+
 NOT_YET = {
 }
 
